@@ -160,6 +160,7 @@ func run(r *report.Report, f rules.PropertyFunc, tier, mutantSpec string) (code 
 		}
 	}
 	p := ana.NewProg(l)
+	rules.InstallAliases(p)
 	r.Analysed["packages_module"] = l.NPkgs
 	r.Analysed["root_packages_module"] = len(l.Roots)
 	r.Analysed["functions_module"] = len(p.Funcs)
@@ -398,14 +399,16 @@ func normalisedRun(r *report.Report, c *rules.Ctx, f rules.PropertyFunc, tier st
 			return near[caller.FullName()] && !sus[h.FullName()] && !sem[h.FullName()]
 		},
 		func(h, caller *types.Func, shared, thin bool) bool {
-			if shared || thin {
+			// (thin wrappers of store / bank primitives are excluded for every stage below; a thin pure helper,
+			// e.g. a predicate, is an extracted expression like any other)
+			if shared {
 				return false
 			}
 			allNames()
 			return !semAll[h.FullName()]
 		},
 		func(h, caller *types.Func, shared, thin bool) bool {
-			if shared || thin {
+			if shared {
 				return false
 			}
 			allNames()
@@ -496,6 +499,7 @@ func checkNormalised(r *report.Report, f rules.PropertyFunc, tier string, overla
 		return nil, "normalised program does not load: " + err.Error()
 	}
 	p2 := ana.NewProg(l)
+	rules.InstallAliases(p2)
 	r2 := report.New(r.Dir, r.Property, r.Tier, r.Seed)
 	c2 := &rules.Ctx{R: r2, P: p2, Tier: tier, Overlay: overlay, Dead: allDead, Fold: &rules.FoldSet{M: map[*ssa.Function]bool{}}}
 	for pass := 0; ; pass++ {
